@@ -418,7 +418,8 @@ class _Gen:
         if self.f.odd_names and r.random() < .3:
             # a module named like its root package, and a non-ASCII module
             root = s.mods[0]
-            m = Mod(len(s.mods), r.choice([root.name, 'é_mod']), root.mid, False, order=order)
+            # (file names that are no identifiers: nothing can import them by name, they are documented all the same)
+            m = Mod(len(s.mods), r.choice([root.name, 'é_mod', '0001_initial', 'make-release']), root.mid, False, order=order)
             order += 1
             s.mods.append(m)
         if self.f.odd_names and r.random() < .25:
@@ -471,7 +472,7 @@ class _Gen:
         visible: List[Tuple[str, Optional[int]]] = []       # class expressions usable as bases here
         refs: List[str] = []
         local_names: Dict[str, Tuple[str, Any]] = {}
-        earlier = [x for x in s.mods if not x.is_pkg and 0 <= x.order < m.order and self.exports.get(x.mid)]
+        earlier = [x for x in s.mods if not x.is_pkg and 0 <= x.order < m.order and self.exports.get(x.mid) and x.name.isidentifier()]
         # imports
         for src in (r.sample(earlier, min(len(earlier), r.randint(0, 3))) if earlier else []):
             exp = self.exports[src.mid]
@@ -707,7 +708,7 @@ class _Gen:
         if f.docstyle == 'epytext' and p.doc and r.random() < .3:
             t1 = f'Package section s{r.randrange(10**5):05d}'
             p.doc += f'\n\n{t1}\n{"=" * len(t1)}\n\nText of the section.'
-        subtree = [x for x in s.mods if not x.is_pkg and x.mid != p.mid and s.modname(x.mid).startswith(s.modname(p.mid) + '.')]
+        subtree = [x for x in s.mods if not x.is_pkg and x.mid != p.mid and s.modname(x.mid).startswith(s.modname(p.mid) + '.') and x.name.isidentifier()]
         allnames: List[str] = []
         if f.reexports:
             for src in r.sample(subtree, min(len(subtree), r.randint(0, 2))):
@@ -770,7 +771,7 @@ class _Gen:
                 allnames.append(d.name)
         if f.odd_names and f.reexports and r.random() < .15:
             # package __init__ re-exports, under the *name of a submodule*, a class defined in that submodule
-            direct = [x for x in s.children(p.mid) if not x.is_pkg and self.exports.get(x.mid)]
+            direct = [x for x in s.children(p.mid) if not x.is_pkg and self.exports.get(x.mid) and x.name.isidentifier()]
             cands = [(x, e) for x in direct for e in self.exports[x.mid] if e[2] == 'class' and e[1] not in self.reexported]
             if cands:
                 # the stdlib `unittest` shape: submodule x holds `x = SomeClass`; the package does `from .x import x` and exports 'x'
@@ -789,7 +790,7 @@ class _Gen:
         r, s = self.r, self.spec
         mods = [m for m in s.mods if not m.is_pkg and m.order >= 0]
         for m in mods:
-            later = [x for x in mods if x.order > m.order and self.exports.get(x.mid)]
+            later = [x for x in mods if x.order > m.order and self.exports.get(x.mid) and x.name.isidentifier()]
             if later and r.random() < .4:
                 src = r.choice(later)
                 n, uid, kind = r.choice(self.exports[src.mid])
